@@ -54,7 +54,7 @@ def tv(r, t):
 
 
 def cases(tier, seed):
-    n = 260 if tier == "quick" else 3000
+    n = 260 if tier == "quick" else 20000
     out = [{"id": "seq/%d" % i, "kind": "seq", "seed": [seed, 7, i], "cost": 2} for i in range(n)]
     out += [{"id": "axiom/%d" % i, "kind": "axiom", "seed": [seed, 77, i], "cost": 0.3} for i in range(n // 2)]
     return out
